@@ -26,6 +26,11 @@ def obligations(tier):
     o.append(Obl("xstream_create_ladder", "C17/create_ladder.c", "xstream_create with a failure at a symbolic stage (descriptor allocation, local memory pools, root ULT, root pool, main-scheduler ULT, native thread) or a taken rank, on a list of 1..2 live streams: everything acquired is released exactly once, the rank is returned, get_num and the list are as before, scheduler reusable; success path registers the stream with the smallest unused / requested rank",
                  unwind=5, cut_loops=["ABTD_spinlock_acquire.0", "ABTD_spinlock_acquire.1"], object_bits=10, backend="cadical", encodes=["xstream_create", "xstream_set_new_rank", "xstream_return_rank", "ABT_xstream_get_num"],
                  bounds="1..2 live streams, 7 failure positions", symbolic="failing stage, requested rank, existing ranks"))
+    for br, nm, d in [(1, "other_stream", "replacing the main scheduler of another (joined, WAITING) stream, first pool of the new scheduler built-in or user-defined with failing unit creation/registration (symbolic): success hands the scheduler ULT over completely; failure changes nothing (old scheduler still main, new one unused)"),
+                      (2, "own_stream", "ABT_xstream_set_main_sched from a ULT of the same stream sitting in a solver-chosen pool; old and new scheduler have 1..3 pools: at the switch the caller is re-associated with the new scheduler's first pool iff it sat in a pool of the old scheduler, the replacement and waiter are recorded, an earlier pending replacement is discarded and its waiter resumed once")]:
+        o.append(Obl("main_sched_" + nm, "C17/mainsched.c", d, defs=["BR=%d" % br], unwind=5, object_bits=11, backend="cadical", no_std=["--pointer-overflow-check"],
+                     encodes=["xstream_update_main_sched", "ABTI_thread_set_associated_pool", "ABTI_ythread_suspend_replace_sched", "ABTI_ythread_resume_and_push"],
+                     bounds="1..3 pools per scheduler, one pending replacement", symbolic="numbers of pools, the caller's pool, automatic flags, pending replacement, failure of the user-defined pool"))
     return o
 
 MANIFEST_ENTRY = {
